@@ -318,10 +318,10 @@ class Engine:
         self.nchecks += 1
         if isinstance(cond, SymBool):
             e = z3.simplify(cond.e)
-            if z3.is_true(e):
-                return
-            sat, m = self._check(z3.Not(e))
             self.decided += 1
+            if z3.is_true(e):
+                return  # decided by z3's simplifier
+            sat, m = self._check(z3.Not(e))
             if sat:
                 raise Violation(msg, dict(info, model=self._model_dict(m)))
             return
